@@ -10,6 +10,7 @@ from common import *
 import sched_common as S
 import sched_gen as G
 import c06_interp as I
+import c06_transit as TR
 from fractions import Fraction as F
 from math import ceil
 
@@ -449,6 +450,8 @@ def check(run):
         if i in flagged:
             continue
         S.report_disagreement(run, fin[i], results[i], "correspondence", "Timeline/Track", {"meta": scs[i]["meta"]})
+    # stratum T: operations issued from another track's callback in the tick in which the target finishes / is in a transitional state
+    TR.transit_part(run, 140 if quick else 1500)
     # stratum I: lifecycle operations applied to interpolating (linear / cosine) control tracks
     I.interp_part(run, 150 if quick else 1500)
     run.cov["rule"] = ("one case = one history: (P) planned lifecycle of 1-4 schedule calls (lengths 0/1/3/endless, counts, gates to 8, rwd, names, "
